@@ -928,6 +928,11 @@ class PrivKeyV4(PrivKey, PubKeyV4):
 
     def pubkey(self):
         # return a copy of ourselves, but just the public half
+        if isinstance(self.keymaterial, OpaquePrivKey):
+            # key material of an unsupported algorithm is kept as undivided octets: where the public part ends
+            # is not known, and a public key without any key material is not this key's public half
+            raise NotImplementedError("no public half for a key of unsupported algorithm {!r}".format(self.pkalg))
+
         pk = PubKeyV4() if not isinstance(self, PrivSubKeyV4) else PubSubKeyV4()
         pk.created = self.created
         pk.pkalg = self.pkalg
